@@ -184,6 +184,19 @@ def run(tier, res, replay=None):
             gs = [(k, 0) for k in range(1, 6)] + [(0, 1), (3, 1)]
         for g in gs:
             singles.append((f'{kname}-g{g[0]}{g[1]}', case, g))
+    # temperature-dependent coolant in un-rodded regions of both kinds
+    # above a bundle with a one-sided power map, coupled to a gap: the
+    # properties of a region may depend on no particular node
+    from harness.scenarios import add_regions, bundle_type
+    for nm, up in (('6node', dict(model='6node', vf_coolant=0.35)),
+                   ('simple', dict(model='simple', vf_coolant=0.35))):
+        tt = add_regions(bundle_type(2), 0.6, upper=up, rods=[0.0, 0.3])
+        cs = make_core(rng, {'a1': tt}, [(1, 1, 'a1')], [flow_for(tt, 0.05)],
+                       gap_model='flow', bypass_fraction=0.05,
+                       coolant='sodium', ncell=2, power_order=1,
+                       cell_bounds=[0.0, 0.3, 0.6])
+        for g in ((1, 0), (2, 0), (4, 0), (0, 1)):
+            singles.append((f'sodium-{nm}-above-bundle-g{g[0]}{g[1]}', cs, g))
     OF = 0.060
     A, B = fitted_type(2, OF), fitted_type(3, OF)
     DD = fitted_type(3, OF, nd=2, wall=0.002, byp=0.0015)
